@@ -5,6 +5,7 @@ import (
 	"fmt"
 	"reflect"
 	"regexp"
+	"sort"
 
 	"github.com/graphql-go/graphql/language/ast"
 )
@@ -1004,6 +1005,8 @@ func (gt *Enum) defineEnumValues(valueMap EnumValueConfigMap) ([]*EnumValueDefin
 		}
 		values = append(values, value)
 	}
+	// valueMap is a Go map: list the values in a defined (name) order.
+	sort.Slice(values, func(i, j int) bool { return values[i].Name < values[j].Name })
 	return values, nil
 }
 func (gt *Enum) Values() []*EnumValueDefinition {
